@@ -637,7 +637,8 @@ def gen_cases(rng, tier, search):
 
 
 def corpus_cases():
-    """hand-written cases that are always run: the witnesses of the known findings"""
+    """hand-written cases that are always run: the witnesses of the findings (open: F2; fixed by e0254f9 / 07af69d / 4801d95:
+    F1, F3, F4 - these now must behave as the property says, they are regression cases)"""
     def rng_spec(neg, a, b):
         return {"neg": neg, "kind": "range", "s": ["at", "none", ["hms", a[0], a[1], 0], None], "e": ["at", "none", ["hms", b[0], b[1], 0], None]}
     out = []
@@ -657,12 +658,12 @@ def corpus_cases():
     en_eq = 0       # "pyscript.en == '1'"      (pyscript.en exists before the first event)
     nosuch = 3      # "pyscript.nosuch"         (None: falsy but not False)
     cnt_ne = 12     # "pyscript.cnt != '1'"     (pyscript.cnt does not exist at the first event)
-    funcs = [fn("event", None, True, mixed, None, True),          # F1 mixed sign (BASE is 12:00)
-             fn("state", None, True, twoneg, None, True),         # F1 two negatives
-             fn("event", en_eq, True, [], 5, False),              # F2 time_active above state_active, hold_off
+    funcs = [fn("event", None, True, mixed, None, True),          # F1 (fixed) mixed sign (BASE is 12:00)
+             fn("state", None, True, twoneg, None, True),         # F1 (fixed) two negatives
+             fn("event", en_eq, True, [], 5, False),              # F2 (open) time_active above state_active, hold_off
              fn("event", en_eq, True, [], 5, True),               #    control: the other order
-             fn("event", nosuch, False, [], None, True),          # F3 falsy, not False
-             fn("event", cnt_ne, False, [], None, True)]          # F4 stale table
+             fn("event", nosuch, False, [], None, True),          # F3 (fixed) falsy, not False
+             fn("event", cnt_ne, False, [], None, True)]          # F4 (fixed) stale table
     stim = [[0.5, "en", "0"], [1.0, "ev", 1], [2.0, "x", "2"], [3.0, "cnt", "1"], [3.5, "en", "1"], [4.0, "ev", 3],
             [4.5, "direct", 4], [7.0, "ev", 5], [9.0, "ev", 6], [10.0, "ev", 7], [10.5, "x", "8"], [14.0, "ev", 9]]
     scen = {"id": "corpus", "stim": stim, "funcs": funcs, "end": 15.0}
@@ -1086,8 +1087,11 @@ def _py_run(p, flags, legacy):
     return "".join(out)
 
 
-FLAGS_NEW = ["perArg", "identityFalse", "stampEarly", "staleLocals"]
-FLAGS_LEGACY = ["staleLocals"]
+# deviations of the model's Flags.  Only `stampEarly` (finding C07-F2) is still in the code; the others were repaired by the
+# fix commits e0254f9 (perArg), 07af69d (identityFalse), 4801d95 (staleLocals): a case they explain is a REGRESSION and gets
+# a signature that matches no known finding.
+OPEN_FLAGS = ["stampEarly"]
+FIXED_FLAGS = ["perArg", "identityFalse", "staleLocals"]
 
 
 def classify(c, reason):
@@ -1096,11 +1100,14 @@ def classify(c, reason):
         return "active:" + re.sub(r"\d+", "N", reason)[:60]
     legacy = p["kind"] == "ha" and p["legacy"]
     sub = "legacy" if legacy else "new"
-    names = FLAGS_LEGACY if legacy else FLAGS_NEW
+    names = ["staleLocals"] if legacy else OPEN_FLAGS + FIXED_FLAGS
     for k in range(1, len(names) + 1):
         for fl in itertools.combinations(names, k):
             if _py_run(p, set(fl), legacy) == c.impl:
-                return sub + ":" + fl[0]      # several deviations at once: named after the first
+                back = [f for f in fl if f in FIXED_FLAGS]
+                if back:
+                    return sub + ":regressed:" + back[0]     # behaviour of the code before the fix commit
+                return sub + ":" + fl[0]
     return sub + ":unexplained"
 
 
